@@ -131,7 +131,9 @@ theorem grid_full_iff :
     cases d <;> simp [Deviation.witness] at hw <;> simp [Deviation.at]
 
 /-- what the accepted/rejected verdict of the laddr cell is today (replayed on the real code) -/
-example : cellVerdict insnDescs C_LADDR 0 .int = .ok ∧ docOperand Doc.Io false .int = .err E_out_op := by
+example : (cellVerdict insnDescs C_LADDR 0 .int
+      = if Deviation.laddrDstNotOut ∈ knownDeviations then .ok else .err E_out_op)
+    ∧ docOperand Doc.Io false .int = .err E_out_op := by
   decide
 example : deviates C_FADD 2 (.reg (.decl .d)) = false ∧
     cellVerdict insnDescs C_FADD 2 (.reg (.decl .d)) = .err E_op_mode := by decide
@@ -212,7 +214,8 @@ theorem ret_jret_rules (fn : Func) (prevs : List Insn) (ops : List Operand) :
 
 example : finishFuncCheck true insnDescs [] ⟨false, [.i64, .d]⟩ [⟨C_RET, [.int, .reg (.decl .d)]⟩] = .ok
     ∧ finishFuncCheck true insnDescs [] ⟨false, [.i64, .d]⟩ [⟨C_RET, [.int, .float]⟩] = .err E_op_mode
-    ∧ finishFuncCheck true insnDescs [] ⟨false, [.i64, .d]⟩ [⟨C_RET, [.int]⟩] = .crash := by decide
+    ∧ finishFuncCheck true insnDescs [] ⟨false, [.i64, .d]⟩ [⟨C_RET, [.int]⟩]
+        = (if Deviation.retCountCrash ∈ knownDeviations then .crash else .err E_vararg_func) := by decide
 
 /-! ## 5. calls against their prototype -/
 
